@@ -17,11 +17,22 @@ for s in sys.argv[1:]:
     rp = "/tmp/seed/results/%s.json" % name
     if os.path.exists(rp):
         r = json.load(open(rp))
+        suite_rc, suite_run = (r.get("suite") or {}).get("rc"), "in this verification run"
+        su = r.get("suite") or {}
+        if suite_rc not in (None, 0) and su.get("rerun_failing_packages") and not su.get("still_failing"):
+            suite_rc, suite_run = 0, "in this verification run (packages that failed on the busy machine passed when re-run alone: %s)" % ", ".join(su["rerun_failing_packages"])
+        if suite_rc is None:
+            # the last re-verification (after later fix: commits in /repo) skipped pandora's suite for changes whose
+            # suite run had already been confirmed by an earlier verification run of the same change
+            earlier = set(open("/tmp/seed/suite-confirmed.txt").read().split()) if os.path.exists("/tmp/seed/suite-confirmed.txt") else set()
+            if s in earlier:
+                suite_rc, suite_run = 0, "in an earlier verification run of this change (at an earlier /repo HEAD); the demonstration and the checks were re-run at the final HEAD"
         meta["verified_by_lead"] = {
             "how": "lib/seedverify.py in a throw-away worktree of /repo HEAD: demo on the unchanged tree (exit 0), git apply, go build, demo on the changed tree (non-zero), pandora's own suite with the change (passes), then ./check with VERIF_REPO=<worktree>",
             "demo_on_original_rc": (r.get("demo_on_original") or {}).get("rc"),
             "demo_on_changed_rc": (r.get("demo_on_changed") or {}).get("rc"),
-            "suite_rc": (r.get("suite") or {}).get("rc"),
+            "suite_rc": suite_rc,
+            "suite_run": suite_run,
             "suite_flaky_packages_rerun": (r.get("suite") or {}).get("rerun_failing_packages"),
             "confirmed": r.get("confirmed"),
             "checks": {k: {"exit": v["rc"], "violations": v["violations"], "first": v["first"][:1]} for k, v in (r.get("checks") or {}).items()},
